@@ -10,7 +10,7 @@ import types
 import z3
 
 from . import extract, seqops
-from .contract import Const, FixedList, Loop, Obj, Optional, Root, Same, SeqOf, Spec, _Scalar
+from .contract import Const, FixedList, Loop, MapOf, Obj, Optional, Root, Same, SeqOf, Spec, _Scalar
 from .core import Explorer, Infeasible, Path, PathEnd, PyRaise
 from .interp import Interp, OldNS
 from .interp_call import Frame
@@ -65,6 +65,17 @@ def make_symbolic(I: Interp, spec, hint, root=None, env=None):
         if I.branch(Sym("bool", b)):
             return None
         return make_symbolic(I, spec.inner, hint, root, env)
+    if isinstance(spec, MapOf):
+        from .values import MapCell
+        name = "in:" + hint
+        dom = z3.Array(name + ".dom", z3.IntSort(), z3.BoolSort())
+        fields = {}
+        for f, fs in spec.fields.items():
+            if not isinstance(fs, _Scalar):
+                raise Unsupported("MapOf fields must be scalars")
+            fields[f] = (fs.kind, z3.Array(f"{name}.{f}", z3.IntSort(), sort_of(fs.kind)))
+        path.ex.inputs[name + ".dom"] = {"kind": "map", "dom": dom, "fields": fields}
+        return path.alloc(MapCell("int", "ref", dom, None, spec.cls, fields))
     if isinstance(spec, Root):
         if root is None:
             raise Unsupported("Root() outside an object spec")
@@ -76,7 +87,7 @@ def make_symbolic(I: Interp, spec, hint, root=None, env=None):
             v = I.get_attr(v, a)
         return v
     if isinstance(spec, Obj):
-        ref = path.alloc(ObjCell(spec.cls))
+        ref = path.alloc(ObjCell(spec.cls, partial=True))
         cell = path.cell(ref)
         for f, s in spec.fields.items():
             cell.attrs[f] = make_symbolic(I, s, f"{hint}.{f}", root if root is not None else ref, env)
